@@ -109,6 +109,8 @@ pub struct Select {
 pub enum Stmt {
     Select(Select),
     Insert(usize, Vec<Vec<E>>),
+    /// INSERT with an optional column list and rows of any width (`insx`): also the ill-formed ones
+    InsertX(usize, Option<Vec<usize>>, Vec<Vec<E>>),
     Update(usize, Vec<(usize, E)>, Option<E>),
     Delete(usize, Option<E>),
 }
@@ -408,6 +410,26 @@ pub fn show_stmt(s: &Stmt) -> String {
                 }
             }
         }
+        Stmt::InsertX(t, cols, rows) => {
+            out.push("insx".into());
+            out.push(format!("t{}", t));
+            match cols {
+                None => out.push("nolist".into()),
+                Some(cs) => {
+                    out.push(format!("l{}", cs.len()));
+                    for c in cs {
+                        out.push(format!("c{}", c));
+                    }
+                }
+            }
+            out.push(format!("r{}", rows.len()));
+            out.push(format!("v{}", rows.first().map(|r| r.len()).unwrap_or(0)));
+            for r in rows {
+                for e in r {
+                    show_expr(e, &mut out)
+                }
+            }
+        }
         Stmt::Update(t, sets, w) => {
             out.push("upd".into());
             out.push(format!("t{}", t));
@@ -670,6 +692,34 @@ fn p_stmt(db: &[Table], ws: &[&str]) -> Option<Stmt> {
                 rows.push(r);
             }
             Stmt::Insert(tb, rows)
+        }
+        "insx" => {
+            let tb = num_after("t", t.next()?)?;
+            let l = t.next()?;
+            let cols = if l == "nolist" {
+                None
+            } else {
+                let m = num_after("l", l)?;
+                let mut cs = Vec::new();
+                for _ in 0..m {
+                    cs.push(num_after("c", t.next()?)?);
+                }
+                Some(cs)
+            };
+            let n = num_after("r", t.next()?)?;
+            let w = num_after("v", t.next()?)?;
+            if w == 0 {
+                return None;
+            }
+            let mut rows = Vec::new();
+            for _ in 0..n {
+                let mut r = Vec::new();
+                for _ in 0..w {
+                    r.push(p_expr(&mut t)?);
+                }
+                rows.push(r);
+            }
+            Stmt::InsertX(tb, cols, rows)
         }
         "upd" => {
             let tb = num_after("t", t.next()?)?;
@@ -1087,6 +1137,18 @@ pub fn sql_stmt(s: &Stmt, db: &[Table]) -> String {
                 .map(|r| format!("({})", r.iter().map(|e| sql_expr(e, 1, &col)).collect::<Vec<_>>().join(", ")))
                 .collect();
             format!("INSERT INTO t{} VALUES {}", t, rs.join(", "))
+        }
+        Stmt::InsertX(t, cols, rows) => {
+            let col = |i: usize| format!("c{}", i);
+            let rs: Vec<String> = rows
+                .iter()
+                .map(|r| format!("({})", r.iter().map(|e| sql_expr(e, 1, &col)).collect::<Vec<_>>().join(", ")))
+                .collect();
+            let list = match cols {
+                None => String::new(),
+                Some(cs) => format!(" ({})", cs.iter().map(|c| format!("c{}", c)).collect::<Vec<_>>().join(", ")),
+            };
+            format!("INSERT INTO t{}{} VALUES {}", t, list, rs.join(", "))
         }
         Stmt::Update(t, sets, w) => {
             let col = |i: usize| format!("c{}", i);
@@ -2537,6 +2599,68 @@ impl<'a> Gen<'a> {
         q
     }
 
+    /// INSERT with a column list: a random permutation of a random non-empty subset of the columns (the others become
+    /// NULL), one or more rows.  One in three is ill-formed — too few or too many values, a column named twice, a column
+    /// the table does not have — and must be rejected (class `bind`) with the table unchanged.
+    fn insert_with_list(&mut self, t: usize, tys: &[Ty], p: Profile, n: usize) -> Stmt {
+        let mut cols: Vec<usize> = (0..tys.len()).collect();
+        self.rng.shuffle(&mut cols);
+        let k = 1 + self.rng.below(tys.len() as u64) as usize;
+        cols.truncate(k);
+        self.tag("dml.insert.column-list");
+        if k < tys.len() {
+            self.tag("dml.insert.column-list.subset");
+        }
+        if cols.windows(2).any(|w| w[0] > w[1]) {
+            self.tag("dml.insert.column-list.permuted");
+        }
+        let mut width = cols.len();
+        let mut list = Some(cols.clone());
+        if self.rng.chance(1, 3) {
+            match self.rng.below(6) {
+                0 | 5 if width > 1 => {
+                    self.tag("dml.insert.ill-formed.too-few-values");
+                    width -= 1;
+                }
+                1 => {
+                    self.tag("dml.insert.ill-formed.too-many-values");
+                    width += 1;
+                }
+                2 => {
+                    self.tag("dml.insert.ill-formed.duplicate-column");
+                    let c = cols[self.rng.below(cols.len() as u64) as usize];
+                    cols.push(c);
+                    width = cols.len();
+                    list = Some(cols.clone());
+                }
+                3 => {
+                    self.tag("dml.insert.ill-formed.unknown-column");
+                    cols.push(tys.len() + self.rng.below(3) as usize);
+                    width = cols.len();
+                    list = Some(cols.clone());
+                }
+                _ => {
+                    // no list, wrong number of values
+                    self.tag("dml.insert.ill-formed.no-list-arity");
+                    list = None;
+                    cols = (0..tys.len()).collect();
+                    width = if tys.len() > 1 && self.rng.chance(1, 2) { tys.len() - 1 } else { tys.len() + 1 };
+                }
+            }
+        }
+        let rows: Vec<Vec<E>> = (0..n)
+            .map(|_| {
+                (0..width)
+                    .map(|i| {
+                        let c = cols.get(i).copied().filter(|c| *c < tys.len()).unwrap_or(0);
+                        E::Lit(self.val(tys[c], p, c > 0))
+                    })
+                    .collect()
+            })
+            .collect();
+        Stmt::InsertX(t, list, rows)
+    }
+
     fn dml(&mut self, db: &[Table], p: Profile) -> Vec<Stmt> {
         self.pristine = false;
         let t = self.rng.below(db.len() as u64) as usize;
@@ -2549,10 +2673,14 @@ impl<'a> Gen<'a> {
             0 => {
                 self.tag("dml.insert");
                 let n = self.rng.range(1, 3) as usize;
-                let rows: Vec<Vec<E>> = (0..n)
-                    .map(|_| (0..tys.len()).map(|c| E::Lit(self.val(tys[c], p, c > 0))).collect())
-                    .collect();
-                Stmt::Insert(t, rows)
+                if self.rng.chance(1, 2) {
+                    self.insert_with_list(t, &tys, p, n)
+                } else {
+                    let rows: Vec<Vec<E>> = (0..n)
+                        .map(|_| (0..tys.len()).map(|c| E::Lit(self.val(tys[c], p, c > 0))).collect())
+                        .collect();
+                    Stmt::Insert(t, rows)
+                }
             }
             1 => {
                 self.tag("dml.update");
@@ -2783,7 +2911,8 @@ impl Engine for SqlEngine {
                     return "-".to_string();
                 }
                 let o = run_stmt(db, &tables, s);
-                if !matches!(s, Stmt::Select(_)) && o.starts_with('E') {
+                // (a statement the parser or the binder rejects was never executed: the comparison goes on)
+                if !matches!(s, Stmt::Select(_)) && o.starts_with('E') && o != "Ebind" && o != "Eparse" {
                     failed_dml = true;
                 }
                 if let Some(p) = take_worker_panic() {
